@@ -84,3 +84,20 @@ def human_replaces_all_ai_lines():
         return s.kinds()
     finally:
         s.destroy()
+
+
+def file_name_with_backslash():
+    """D71: an agent adds two lines to a tracked file named `back\\slash.txt` (a backslash is an ordinary character in a Linux file
+    name); commit => the note does not list them and blame reports them human (paths are normalised as if `\\` were a separator)."""
+    s = Script("d71", files=1)
+    try:
+        name = "back\\slash.txt"
+        f0 = [s.line("human") for _ in range(3)]
+        s.files = [name]
+        s.human_write(name, f0); s.commit_all("init")
+        s.ai_write("S1", name, f0 + [s.line("S1"), s.line("S1")]); s.commit_all("ai")
+        c = s.head()
+        s.check_notes("w"); s.check_commit_exact(c, "w", rule="C01"); s.check_blame_tip("w", rule="C01")
+        return s.kinds()
+    finally:
+        s.destroy()
